@@ -277,14 +277,18 @@ class AsyncTLSStreamTransport(AsyncStreamTransport):
     ) -> _T_Return:
         assert _ssl_module is not None, "stdlib ssl module not available"  # nosec assert_used
         while True:
+            # Only wait for the send lock if this call produced data to send: a task already sending (or waiting to)
+            # flushes its own data, and a reader must not be stuck behind a sender blocked by the peer.
+            already_pending = self._write_bio.pending
             try:
                 result = ssl_object_method(*args)
             except _ssl_module.SSLWantReadError:
                 try:
                     # Flush any pending writes first
-                    async with self.__transport_send_lock:
-                        if self._write_bio.pending:
-                            await self._transport.send_all(self._write_bio.read())
+                    if self._write_bio.pending > already_pending:
+                        async with self.__transport_send_lock:
+                            if self._write_bio.pending:
+                                await self._transport.send_all(self._write_bio.read())
 
                     async with self.__transport_recv_lock:
                         await self.__incoming_reader.readinto(self._read_bio)
@@ -301,9 +305,10 @@ class AsyncTLSStreamTransport(AsyncStreamTransport):
                 raise
             else:
                 # Flush any pending writes first
-                async with self.__transport_send_lock:
-                    if self._write_bio.pending:
-                        await self._transport.send_all(self._write_bio.read())
+                if self._write_bio.pending > already_pending:
+                    async with self.__transport_send_lock:
+                        if self._write_bio.pending:
+                            await self._transport.send_all(self._write_bio.read())
 
                 return result
 
